@@ -116,6 +116,9 @@ func VerifIsBlackURL(s string) bool { return isBlackURL(s) }
 // VerifHTMLDecode exposes htmlDecodeByteAt.
 func VerifHTMLDecode(s string) (int, int) { return htmlDecodeByteAt(s) }
 
+// VerifLookupKeyword exposes the case-folding keyword look-up used by the lexers.
+func VerifLookupKeyword(s string) byte { return isKeyword(s) }
+
 // VerifSQLKeywords returns a copy of the keyword/fingerprint table.
 func VerifSQLKeywords() map[string]byte {
 	out := make(map[string]byte, len(sqlKeywords))
